@@ -51,6 +51,10 @@ pub struct GetResult {
     /// failed to deserialize).
     pub b_raw: Option<Vec<String>>,
     pub used_fallthrough: bool,
+    /// The serde-derived twin itself panicked inside the format library (e.g. serde_json 1.0.117
+    /// slices a non-ASCII map key when a bool key is expected): there is no reference for this
+    /// read, so no verdict either.
+    pub twin_panicked: bool,
     pub log_a: ReadLog,
     pub log_b: ReadLog,
     pub unread_a: usize,
@@ -60,6 +64,9 @@ pub struct GetResult {
 impl GetResult {
     /// `None` if the invariant holds, else (invariant, detail).
     pub fn violation(&self) -> Option<(&'static str, String)> {
+        if self.twin_panicked {
+            return None;
+        }
         if let Side::Panic(m) = &self.a {
             return Some(("deserialize_does_not_panic", format!("Deserialize panicked: {m}")));
         }
@@ -154,7 +161,14 @@ impl<'r, D: Decl> ShapeVisitor<D> for GetVisitor<'r> {
             Ok(Err(e)) => Side::Err(e),
             Err(p) => Side::Panic(panic_message(&p)),
         };
-        let b = codec::de::<B>(fmt, api, &mut rb);
+        let mut twin_panicked = false;
+        let b = match catch_unwind(AssertUnwindSafe(|| codec::de::<B>(fmt, api, &mut rb))) {
+            Ok(b) => b,
+            Err(p) => {
+                twin_panicked = true;
+                Err(format!("twin panicked in the format library: {}", panic_message(&p)))
+            }
+        };
         let b_ok = b.is_ok();
         let mut used_fallthrough = false;
         let mut rejected = 0;
@@ -177,9 +191,13 @@ impl<'r, D: Decl> ShapeVisitor<D> for GetVisitor<'r> {
                                 Some(f) => {
                                     used_fallthrough = true;
                                     let mut rc = self.reader.clone();
-                                    match f(&mut rc, fmt, api) {
-                                        Ok(aux2) => Side::Ok(vec![], aux2),
-                                        Err(e2) => Side::Err(format!("constructor: {e}; fall-through: {e2}")),
+                                    match catch_unwind(AssertUnwindSafe(|| f(&mut rc, fmt, api))) {
+                                        Ok(Ok(aux2)) => Side::Ok(vec![], aux2),
+                                        Ok(Err(e2)) => Side::Err(format!("constructor: {e}; fall-through: {e2}")),
+                                        Err(p) => {
+                                            twin_panicked = true;
+                                            Side::Err(format!("fall-through model panicked in the format library: {}", panic_message(&p)))
+                                        }
                                     }
                                 }
                             },
@@ -196,6 +214,7 @@ impl<'r, D: Decl> ShapeVisitor<D> for GetVisitor<'r> {
             expected,
             b_raw,
             used_fallthrough,
+            twin_panicked,
             unread_a: ra.remaining(),
             unread_b: rb.remaining(),
             log_a: ra.log,
@@ -215,7 +234,14 @@ pub fn diff_stream<D: Decl>(reader: &SimReader) -> GetResult {
     let mut ra = reader.clone();
     let mut rb = reader.clone();
     let a_items = catch_unwind(AssertUnwindSafe(|| codec::de_json_stream::<D>(&mut ra)));
-    let b_items = codec::de_json_stream::<D::Twin>(&mut rb);
+    let mut twin_panicked = false;
+    let b_items = match catch_unwind(AssertUnwindSafe(|| codec::de_json_stream::<D::Twin>(&mut rb))) {
+        Ok(v) => v,
+        Err(_) => {
+            twin_panicked = true;
+            Vec::new()
+        }
+    };
     // Expected: map the twin's items through the constructor, up to and including the first Err.
     let mut exp: Vec<Result<String, String>> = Vec::new();
     let mut rejected = 0;
@@ -270,6 +296,7 @@ pub fn diff_stream<D: Decl>(reader: &SimReader) -> GetResult {
         expected,
         b_raw: None,
         used_fallthrough: false,
+        twin_panicked,
         unread_a: ra.remaining(),
         unread_b: rb.remaining(),
         log_a: ra.log,
@@ -392,7 +419,12 @@ impl<'r, D: Decl> ShapeVisitor<D> for InPlaceVisitor<'r, D> {
         let mut rb = self.reader.clone();
         let fmt = self.fmt;
         let r = catch_unwind(AssertUnwindSafe(|| codec::de_in_place::<A>(fmt, &mut ra, &mut place)));
-        let expected = match codec::de_like_in_place::<B>(fmt, &mut rb) {
+        let twin = match catch_unwind(AssertUnwindSafe(|| codec::de_like_in_place::<B>(fmt, &mut rb))) {
+            Ok(t) => t,
+            // the format library panicked under the twin: no reference, no verdict
+            Err(_) => return InPlaceResult::skipped(),
+        };
+        let expected = match twin {
             Err(e) => Side::Err(format!("twin: {e}")),
             Ok(h) => {
                 let (tw, aux_b) = split_b(h);
